@@ -38,6 +38,7 @@ def run(ctx):
     file_tag_ignores_trailing_blanks(ctx)
     v1_continuation_skips_blank_lines(ctx)
     docstring_count_ignores_comments(ctx)
+    version_test_comment_aware(ctx)
 
 
 def _loader_functions(t):
@@ -317,7 +318,7 @@ def layout_facts(ctx):
             if not base:
                 raise AnalysisError("pre-parsing pattern %r matches none of the probe lines" % pat, anchor=P2 + "::_apply_pre_parsing_expansions::pattern")
             for b in base:
-                for tail in ("", "   ", "\t", " # comment", "# comment", "  # c  "):
+                for tail in ("", "   ", "\t", " # comment", "# comment", "  # c  ") + tuple(x for ch in sorted(_ignored_blanks(ctx) - {" ", "\t"}) for x in (ch, " " + ch + " ")):
                     line = b + tail
                     left = rx.sub("\x00", line, count=1)
                     if "\x00" not in left:
@@ -404,9 +405,63 @@ def keyword_terminals_one_line(ctx):
     ctx.floor("C13.layout", LARK, "keyword terminals that use white-space classes", n, 1)
 
 
+def _ignored_blanks(ctx):
+    """The characters of the character classes the grammar %ignore's (blanks between tokens)."""
+    g = ctx.tree.text(LARK)
+    out = set()
+    for im in re.finditer(r"^%ignore\s+/\[((?:\\.|[^\]])+)\][+*]/", g, re.M):
+        out |= set(re.sub(r"\\(.)", lambda q: {"t": "\t", "f": "\f", "n": "\n", "r": "\r"}.get(q.group(1), q.group(1)), im.group(1)))
+    return out
+
+
+SCANNER_FILES = ("nemoguardrails/colang/v2_x/lang/parser.py", "nemoguardrails/colang/v2_x/lang/utils.py", "nemoguardrails/colang/__init__.py")
+
+
+def _line_scanners(ctx):
+    """Functions that read a line from left to right and know where a comment starts: a loop whose if/elif chain tests, in this order, the docstring state (a parameter), and
+    then triple quotes and string-literal quotes BEFORE the `#` - whose branch leaves the loop.  (The first branch that matches wins: a `#` tested earlier would cut a string
+    literal or a docstring line, triple quotes tested after it would be found inside a comment.)  name -> (file, ok, reason)"""
+    out = {}
+    for f in SCANNER_FILES:
+        if not ctx.tree.exists(f):
+            continue
+        for fn in functions(ctx.tree.ast(f)):
+            params = {a.arg for a in fn.args.args}
+            for loop in ast.walk(fn):
+                if not isinstance(loop, (ast.While, ast.For)):
+                    continue
+                chain = next((st for st in loop.body if isinstance(st, ast.If)), None)
+                tests = []
+                node = chain
+                while node is not None:
+                    tests.append(node)
+                    node = node.orelse[0] if len(node.orelse) == 1 and isinstance(node.orelse[0], ast.If) else None
+                def consts(t):
+                    return [c.value for c in ast.walk(t.test) if isinstance(c, ast.Constant) and isinstance(c.value, str)]
+                i_hash = next((i for i, t in enumerate(tests) if "#" in consts(t)), None)
+                if i_hash is None:
+                    continue
+                i_tq = next((i for i, t in enumerate(tests) if '"""' in consts(t)), None)
+                i_str = next((i for i, t in enumerate(tests) if any(set(c) <= set("\"'") and c and c != '"""' for c in consts(t))), None)
+                i_state = next((i for i, t in enumerate(tests) if isinstance(t.test, ast.Name) and t.test.id in params), None)
+                leaves = any(isinstance(x, (ast.Break, ast.Return)) for st in tests[i_hash].body for x in ast.walk(st))
+                why = None
+                if not leaves:
+                    why = "the `#` branch does not end the scan of the line"
+                elif i_tq is None or i_tq > i_hash:
+                    why = "the `#` is tested before the triple quotes (a docstring line that contains a `#` is cut)"
+                elif i_str is None or i_str > i_hash:
+                    why = "the `#` is tested before the quotes of a string literal (a `#` inside a string starts a comment)"
+                elif i_state is None or i_state > i_hash or i_state > i_tq:
+                    why = "the docstring state is not tested first (a `#` or quotes INSIDE a docstring are taken for code)"
+                out[fn.name] = (f, why is None, why, fn)
+    return out
+
+
 def docstring_count_ignores_comments(ctx):
-    """The pre-parsing pass tracks docstrings by counting triple quotes per line.  An end-of-line comment may contain triple quotes too; counted on the RAW line they flip the
-    "in docstring" state, and the `...` statements below are no longer expanded (F107).  The count has to be taken on the line without its comment."""
+    """The pre-parsing pass has to know which lines are docstring text.  An end-of-line comment may contain triple quotes too; counted on the RAW line they flip the
+    "in docstring" state, and the `...` statements below are no longer expanded (F107).  Accepted: the count is taken on the line without its comment, or the state comes from a
+    left-to-right line scanner that knows comments and string literals (_line_scanners)."""
     P2 = "nemoguardrails/colang/v2_x/lang/parser.py"
     t = ctx.tree.ast(P2)
     fn = find_function(t, "_apply_pre_parsing_expansions")
@@ -414,7 +469,9 @@ def docstring_count_ignores_comments(ctx):
         raise AnalysisError("_apply_pre_parsing_expansions not found", anchor=P2 + "::_apply_pre_parsing_expansions")
     counts = [c for c in ast.walk(fn) if isinstance(c, ast.Call) and isinstance(c.func, ast.Attribute) and c.func.attr == "count" and c.args
               and isinstance(c.args[0], ast.Constant) and c.args[0].value == '\"\"\"']
-    ctx.floor("C13.layout", P2, "docstring tracking by counting triple quotes", len(counts), 1)
+    scanners = _line_scanners(ctx)
+    scans = [c for c in ast.walk(fn) if isinstance(c, ast.Call) and (src(c.func).split(".")[-1] in scanners)]
+    ctx.floor("C13.layout", P2, "docstring tracking (count of triple quotes / line scanner)", len(counts) + len(scans), 1)
     for c in counts:
         recv = c.func.value
         raw = isinstance(recv, ast.Name) and any(
@@ -424,6 +481,48 @@ def docstring_count_ignores_comments(ctx):
                   "the docstring state is computed from the line without its comment" if not raw else
                   "triple quotes are counted on the raw line: an end-of-line comment that contains them flips the docstring state, the `...` statements that follow are not expanded and "
                   "the file is rejected (or parses to different flows) - adding a comment changes the parse", line=c.lineno)
+    for c in scans:
+        f, ok, why, _ = scanners[src(c.func).split(".")[-1]]
+        # the state is threaded: the name passed in is assigned from the result
+        st = getattr(c, "_parent", None)
+        passed = {a.id for a in c.args if isinstance(a, ast.Name)} | {k.value.id for k in c.keywords if isinstance(k.value, ast.Name)}
+        stored = {x.id for tg in getattr(st, "targets", []) for x in ast.walk(tg) if isinstance(x, ast.Name)} if isinstance(st, ast.Assign) else set()
+        threaded = bool(passed & stored)
+        ok2 = ok and threaded
+        ctx.check("C13.layout", P2, "ColangParser._apply_pre_parsing_expansions", "triple quotes are counted outside comments", ok2,
+                  "the docstring state comes from the line scanner %s (%s), which ends the scan at a `#` outside docstrings and string literals; the state is carried from line to line" % (src(c.func), f) if ok2 else
+                  ("the line scanner %s is called but its docstring state is not carried to the next line" % src(c.func) if ok else
+                   "the line scanner %s does not separate comments soundly: %s - adding a comment / a `#` changes which lines count as docstring text, the `...` statements are expanded "
+                   "differently" % (src(c.func), why)), line=c.lineno)
+
+
+def version_test_comment_aware(ctx):
+    """Whether a file is treated as Colang 2.x is decided on its text with docstrings and comments removed (a `define` at the start of a line means 1.0 - and a 1.0 file in a 2.x
+    configuration is SKIPPED).  Removing the two in separate passes is wrong in either order (F107, second half): docstrings first pairs the triple quotes inside a comment with
+    the opening quotes of the next docstring, comments first cuts a docstring line that contains a `#`.  Accepted: one pass through the line scanner."""
+    INIT = "nemoguardrails/colang/__init__.py"
+    t = ctx.tree.ast(INIT)
+    fn = find_function(t, "_is_colang_v2")
+    if fn is None:
+        raise AnalysisError("_is_colang_v2 not found", anchor=INIT + "::_is_colang_v2")
+    from ..source import regex_call
+    subs = [(c, regex_call(c, t)) for c in ast.walk(fn) if isinstance(c, ast.Call)]
+    subs = [(c, r) for c, r in subs if r is not None and r[0] in ("sub", "subn", "split")]
+    by_doc = [c for c, r in subs if '"""' in r[1]]
+    by_hash = [c for c, r in subs if "#" in r[1]]
+    scanners = _line_scanners(ctx)
+    scans = [c for c in ast.walk(fn) if isinstance(c, ast.Call) and (src(c.func).split(".")[-1] in scanners)]
+    if not by_doc and not by_hash and not scans:
+        raise AnalysisError("_is_colang_v2 removes neither docstrings nor comments in a form that was recognised", anchor=INIT + "::_is_colang_v2::removal")
+    two_pass = bool(by_doc or by_hash)
+    sound = (not two_pass) and all(scanners[src(c.func).split(".")[-1]][1] for c in scans)
+    ctx.check("C13.layout.version-test", INIT, "_is_colang_v2", "docstrings and comments are removed in one pass", sound,
+              "the text the version test looks at comes from the line scanner (comments and docstrings are separated in one left-to-right pass)" if sound else
+              ("docstrings and comments are removed by separate substitutions (%s): a comment that contains triple quotes pairs with the next docstring (or a `#` inside a docstring "
+               "cuts its closing quotes), the docstring text stays in, and a line of it that starts with `define` makes the whole 2.x file count as Colang 1.0 - it is skipped without an "
+               "error; adding a comment changes the flows that are loaded" % ", ".join(first_line(c, 40) for c in by_doc + by_hash) if two_pass else
+               "the line scanner used by the version test is not sound: %s" % "; ".join(str(scanners[src(c.func).split(".")[-1]][2]) for c in scans)),
+              line=(by_doc + by_hash + scans)[0].lineno)
 
 
 def single_statement_files(ctx):
